@@ -17,7 +17,10 @@
 (*   remove (session.go removeTorrentFromClient, stopAndRemoveData)        *)
 (*     detach  delete from both maps          under mTorrents.Lock         *)
 (*     dbdel   DeleteBucket                   one bbolt transaction        *)
-(*     release torrent.Close + releasePort    under mPorts                 *)
+(*     close   torrent.Close: the torrent's own loop stops and, if it was  *)
+(*             running, WRITES ITS BITFIELD BY ID (torrent_stop.go) - one  *)
+(*             bbolt transaction of the loop, a no-op without a record     *)
+(*     release releasePort + unreserveID      under mPorts / mTorrents     *)
 (*   Start / Stop / AddTracker on the handle found by GetTorrent           *)
 (*     lookup  GetTorrent                     under mTorrents.RLock        *)
 (*     apply   WriteStarted / trackers r-m-w  one bbolt transaction        *)
@@ -31,8 +34,13 @@
 (* frees the id before `dbdel` has removed its record.                     *)
 (* cfg.atomic = TRUE is the intended design (and the shape of the proposed *)
 (* repair): `check` reserves the id until `insert`, `detach` keeps it      *)
-(* reserved until `dbdel`; a tracker added to a torrent whose record is    *)
+(* reserved until `release` (the removed torrent is closed: nothing writes *)
+(* under that id any more); a tracker added to a torrent whose record is   *)
 (* gone is an error, not a nil dereference.                                *)
+(* cfg.early = TRUE (expected-fail variant, the code before the repair of  *)
+(* round 4): the reservation of a remove ends at `dbdel`, while the        *)
+(* removed torrent still runs - an add of the same id between `dbdel` and  *)
+(* `close` gets the removed torrent's bitfield written into its record.    *)
 (*                                                                         *)
 (* Every step is split into  <Step>Viol(..)  - the tag of the obligation   *)
 (* that the outcome reported by the code contradicts in the current state  *)
@@ -46,7 +54,7 @@
 (***************************************************************************)
 EXTENDS Integers, FiniteSets, Sequences, TLC
 
-VARIABLES cfg,       \* [range : set of ports, k : number of callers, atomic, ret, env, sparse, split : BOOLEAN]  constant after Init
+VARIABLES cfg,       \* [range : set of ports, k : number of callers, atomic, ret, env, sparse, split, early : BOOLEAN]  constant after Init
                      \*   ret = TRUE: a finished call waits in step "done" for its return event (trace validation);
                      \*   ret = FALSE: it becomes idle at once (exhaustive configs: returning touches nothing shared)
                      \*   env = TRUE (trace validation): ENVELOPE of both designs - reservations are tracked, an add may be
@@ -57,6 +65,8 @@ VARIABLES cfg,       \* [range : set of ports, k : number of callers, atomic, re
                      \*   split = TRUE (expected-fail variant): Torrent.AddTracker reads the stored tracker list in one transaction
                      \*   and writes the extended list in ANOTHER one (no writer lock in between): two overlapping calls read the
                      \*   same list and the later write drops the tracker of the earlier one (lost update)
+                     \*   early = TRUE (expected-fail variant): RemoveTorrent gives the id back when the record is deleted, before
+                     \*   the removed torrent is closed (its loop still writes resume data under that id)
           torrents,  \* s.torrents : id -> [h, port, p]          (h = handle identity)
           byih,      \* s.torrentsByInfoHash, as the set of [h, id] entries of all lists
           ports,     \* s.availablePorts
@@ -228,6 +238,8 @@ AddStarted(c) ==
 
 BeginRemove(c, id) == Begin(c, "Remove", "detach", id, 0, NoArgs)
 
+\* a = [run, deleted]: run = the torrent has a bitfield of its own (it was started at some time: its loop may be running
+\* and then writes the bitfield when it is closed); deleted = the DeleteBucket transaction of this remove succeeded
 RemDetach(c) ==
     /\ At(c, "Remove", "detach")
     /\ LET id == pc[c].id IN
@@ -235,25 +247,40 @@ RemDetach(c) ==
        THEN /\ torrents' = Del(torrents, id)
             /\ byih' = byih \ {[h |-> torrents[id].h, id |-> id]}
             /\ reserved' = IF Tracking THEN reserved \cup {id} ELSE reserved
-            /\ pc' = [pc EXCEPT ![c].step = "dbdel", ![c].h = torrents[id].h, ![c].port = torrents[id].port]
+            /\ pc' = [pc EXCEPT ![c].step = "dbdel", ![c].h = torrents[id].h, ![c].port = torrents[id].port,
+                                 ![c].a = [run |-> id \in DOMAIN db /\ db[id].bf = "own", deleted |-> FALSE]]
        ELSE /\ Done(c, "ok")
             /\ UNCHANGED <<torrents, byih, reserved>>
     /\ UNCHANGED <<cfg, ports, db, invalid, orphans, crashed>>
 
-\* ok = FALSE: the DeleteBucket transaction failed; the remove goes on all the same (reservation dropped, torrent
-\* closed, port released) - @obligation C14.leak for remove
+\* ok = FALSE: the DeleteBucket transaction failed; the remove goes on all the same (torrent closed, port released,
+\* reservation dropped) - @obligation C14.leak for remove
+\* (cfg.early: the reservation ends here, as the code was before the repair of round 4)
 RemDb(c, ok) ==
     /\ At(c, "Remove", "dbdel") /\ ~DbHeld
     /\ db' = IF ok THEN Del(db, pc[c].id) ELSE db
-    /\ reserved' = reserved \ {pc[c].id}
-    /\ Goto(c, "release")
+    /\ reserved' = IF cfg.early THEN reserved \ {pc[c].id} ELSE reserved
+    /\ pc' = [pc EXCEPT ![c].step = "close", ![c].a.deleted = ok]
     /\ UNCHANGED <<cfg, torrents, byih, ports, invalid, orphans, crashed>>
 
+\* torrent.Close: the loop of the removed torrent stops; a torrent that was running writes its bitfield BY ID on the way
+\* (wr = TRUE; resumer.update does nothing without a record).  A record found under the id after this remove has deleted
+\* its own belongs to a NEW owner of the id: the write hands the removed torrent's bitfield down to it.
+\* @obligation C14.record  the record of a torrent holds exactly what was written for it
+RemClose(c, wr) ==
+    /\ At(c, "Remove", "close")
+    /\ wr => pc[c].a.run /\ ~DbHeld
+    /\ db' = IF wr /\ pc[c].id \in DOMAIN db /\ pc[c].a.deleted THEN [db EXCEPT ![pc[c].id].bf = "left"] ELSE db
+    /\ Goto(c, "release")
+    /\ UNCHANGED <<cfg, torrents, byih, ports, invalid, orphans, reserved, crashed>>
+
+\* releasePort, then unreserveID (the data directory - named after the id if DataDirIncludesTorrentID - is removed in between)
 RemRelease(c) ==
     /\ At(c, "Remove", "release")
     /\ ports' = ports \cup {pc[c].port}
+    /\ reserved' = reserved \ {pc[c].id}
     /\ Done(c, "ok")
-    /\ UNCHANGED <<cfg, torrents, byih, db, invalid, orphans, reserved, crashed>>
+    /\ UNCHANGED <<cfg, torrents, byih, db, invalid, orphans, crashed>>
 
 -----------------------------------------------------------------------------
 (* Start / Stop / AddTracker through GetTorrent                             *)
